@@ -97,7 +97,6 @@ Decode(bs) ==
   ELSE IF i1.kind # "PRE" THEN [i1 EXCEPT !.fate = "ok"] @@ [pre |-> -1]
   ELSE LET i2 == Decode1(bs, 2) IN
        IF i2.fate = "ok" /\ i2.kind # "PRE" THEN [i2 EXCEPT !.len = i2.len + 1] @@ [pre |-> i1.op]
-       ELSE IF i2.fate = "assert" THEN [fate |-> "assert", len |-> 0]
        ELSE [fate |-> "lone", len |-> 1, mn |-> i1.mn, op |-> i1.op]
 
 Valid(bs) == Decode(bs).fate = "ok"
